@@ -9,6 +9,8 @@ import Mathlib.Algebra.Order.BigOperators.Group.Finset
 import Mathlib.Algebra.Order.Field.Rat
 import Mathlib.Tactic.Ring
 import Mathlib.Tactic.Linarith
+import Mathlib.Tactic.Positivity
+import Mathlib.Tactic.NormNum
 import Strengths.Model.Engine
 
 namespace Strengths
@@ -53,5 +55,44 @@ theorem sum_range_update_point (f g : Nat → Rat) (n i : Nat) (hi : i < n)
   have : ∑ j ∈ (range n).erase i, g j = ∑ j ∈ (range n).erase i, f j :=
     Finset.sum_congr rfl (fun j hj => h j (Finset.ne_of_mem_erase hj))
   rw [this]; ring
+
+/-- a non-negative integer amount -/
+def IsNNInt (q : Rat) : Prop := ∃ k : Nat, q = (k : Rat)
+
+theorem IsNNInt.nonneg {q : Rat} (h : IsNNInt q) : 0 ≤ q := by
+  obtain ⟨k, rfl⟩ := h; exact Nat.cast_nonneg k
+
+theorem isNNInt_zero : IsNNInt 0 := ⟨0, by simp⟩
+theorem isNNInt_natCast (k : Nat) : IsNNInt (k : Rat) := ⟨k, rfl⟩
+
+theorem IsNNInt.add_one {q : Rat} (h : IsNNInt q) : IsNNInt (q + 1) := by
+  obtain ⟨k, rfl⟩ := h; exact ⟨k + 1, by push_cast; ring⟩
+
+theorem IsNNInt.sub_one {q : Rat} (h : IsNNInt q) (hpos : 0 < q) : IsNNInt (q - 1) := by
+  obtain ⟨k, rfl⟩ := h
+  cases k with
+  | zero => simp at hpos
+  | succ k => exact ⟨k, by push_cast; ring⟩
+
+theorem IsNNInt.add {p q : Rat} (hp : IsNNInt p) (hq : IsNNInt q) : IsNNInt (p + q) := by
+  obtain ⟨a, rfl⟩ := hp; obtain ⟨b, rfl⟩ := hq; exact ⟨a + b, by push_cast; ring⟩
+
+theorem isNNInt_max_zero_intCast (z : Int) : IsNNInt (max 0 (z : Rat)) := by
+  rcases le_total 0 z with h | h
+  · refine ⟨z.toNat, ?_⟩
+    have hz : (0 : Rat) ≤ (z : Rat) := by exact_mod_cast h
+    rw [max_eq_right hz]
+    have : ((z.toNat : Int) : Rat) = (z : Rat) := by rw [Int.toNat_of_nonneg h]
+    exact_mod_cast this.symm
+  · have hz : (z : Rat) ≤ 0 := by exact_mod_cast h
+    rw [max_eq_left hz]; exact isNNInt_zero
+
+theorem isNNInt_sum {n : Nat} {f : Nat → Rat} (h : ∀ i, i < n → IsNNInt (f i)) : IsNNInt (∑ i ∈ range n, f i) := by
+  induction n with
+  | zero => simpa using isNNInt_zero
+  | succ n ih =>
+    rw [Finset.sum_range_succ]
+    exact (ih (fun i hi => h i (by omega))).add (h n (by omega))
+
 
 end Strengths
